@@ -359,3 +359,50 @@ Theorem C10_fallback_to_resolver_rdb_compiled :
             end.
 Proof. exact fallback_to_resolver_rdb_compiled. Qed.
 Print Assumptions C10_fallback_to_resolver_rdb_compiled.
+
+(* ---- RocksDB, database-contents hypothesis discharged (3): the codec is the real one
+   (Model/Accum.v: C09's line codec with NoRnetOutput, the accumulator of rdb initCodec =
+   SubnetRanger.MarshalMap over C03's Rearrange, the features record) - no hypothesis about the
+   codec is left (rp_codec is C03_rp_codec_rdb).  Guards: well-formed file without '!' lines,
+   C03's wf_subnets for every map, values shorter than 2^32 bytes (C07). *)
+From DnsV Require Model.Text Model.Preproc Proofs.FileLevel.
+From DnsV Require Import Model.Accum Proofs.AccumLink.
+
+Theorem C10_scope_truthful_rdb_compiled_closed : forall sort, sort_spec sort -> forall o serial v2 f,
+  Proofs.FileLevel.wf_file o serial f = true -> no_rp_lines o serial f = true ->
+  (forall m, wf_subnets (file_nets (Proofs.FileLevel.parsed o serial f) m)) ->
+  kvs_ok (flat_map (recs_of bytes (Proofs.FileLevel.conv_line o serial false v2)) f) ->
+  forall (db : store) dbl fm8 fmM,
+  rdb_compilation bytes (Proofs.FileLevel.conv_line o serial true v2) (accum_rdb sort o serial) [Model.Preproc.feature_kv v2] f db ->
+  lists_store dbl db ->
+  forall ev q r e mo8 moM rip,
+  fm8 = Ok mo8 -> fmM = Ok moM -> q_rip q = Some rip -> rip < two128 ->
+  badvers q = false -> no_backend_error ev ->
+  query_ecs q = Some e -> wf_ecs e ->
+  serve fm8 fmM (rdb_get_location dbl) ev q = Reply r ->
+  exists e', reply_ecs r = Some e' /\
+    e_scope e' = expected_scope (file_nets (Proofs.FileLevel.parsed o serial f)) (map_of mo8) e /\
+    (e_fam e = 1 -> e_scope e' <= 32) /\ (e_fam e = 2 -> e_scope e' <= 128).
+Proof. exact scope_truthful_rdb_compiled_closed. Qed.
+Print Assumptions C10_scope_truthful_rdb_compiled_closed.
+
+Theorem C10_fallback_to_resolver_rdb_compiled_closed : forall sort, sort_spec sort -> forall o serial v2 f,
+  Proofs.FileLevel.wf_file o serial f = true -> no_rp_lines o serial f = true ->
+  (forall m, wf_subnets (file_nets (Proofs.FileLevel.parsed o serial f) m)) ->
+  kvs_ok (flat_map (recs_of bytes (Proofs.FileLevel.conv_line o serial false v2)) f) ->
+  forall (db : store) dbl fm8 fmM,
+  rdb_compilation bytes (Proofs.FileLevel.conv_line o serial true v2) (accum_rdb sort o serial) [Model.Preproc.feature_kv v2] f db ->
+  lists_store dbl db ->
+  forall ev q r mo8 moM rip,
+  fm8 = Ok mo8 -> fmM = Ok moM -> q_rip q = Some rip -> rip < two128 ->
+  badvers q = false -> no_backend_error ev ->
+  (forall e, query_ecs q = Some e -> wf_ecs e) ->
+  serve fm8 fmM (rdb_get_location dbl) ev q = Reply r ->
+  r_loc r = match query_ecs q with
+            | Some e => if id_eqb (ecs_decides (file_nets (Proofs.FileLevel.parsed o serial f)) (map_of mo8) e) (0, 0)
+                        then resolver_decides (file_nets (Proofs.FileLevel.parsed o serial f)) (map_of moM) rip
+                        else ecs_decides (file_nets (Proofs.FileLevel.parsed o serial f)) (map_of mo8) e
+            | None => resolver_decides (file_nets (Proofs.FileLevel.parsed o serial f)) (map_of moM) rip
+            end.
+Proof. exact fallback_to_resolver_rdb_compiled_closed. Qed.
+Print Assumptions C10_fallback_to_resolver_rdb_compiled_closed.
